@@ -64,6 +64,8 @@ def process_case(case, lit, want_text, capture_opt=False, disable_opt=False):
         out["header"], out["source"] = cap.code[0], cap.code[1]
     from ffcx.codegeneration.C.formatter import Formatter
     is_c = cap.options.get("language", "C") == "C"
+    if want_text and is_c:
+        out["forms"] = form_dispatch(cap)
     for k in cap.kernels:
         kd = {"name": ffx.kernel_name(k), "kind": k["kind"]}
         try:
@@ -80,6 +82,43 @@ def process_case(case, lit, want_text, capture_opt=False, disable_opt=False):
             kd["unsupported"] = str(e)
         out["kernels"].append(kd)
     return out
+
+
+ITYPES = ["cell", "exterior_facet", "interior_facet", "vertex", "ridge"]
+
+
+def form_dispatch(cap):
+    """per form: what the emitted descriptor lists under each (type, id) (read off the C text)
+    and what it must list according to UFL's integral data (kernels of the integral-data groups
+    whose id tuple contains the id)."""
+    import re
+    src = cap.code[1]
+    forms = []
+    n = 0
+    for fi, fd in enumerate(cap.analysis.form_data):
+        fname = cap.ir.forms[fi].name
+        exp = {}
+        for itg in fd.integral_data:
+            ir = cap.ir.integrals[n]
+            n += 1
+            names = sorted(f"{ir.expression.name}_{d.name}" for d in set(c for c, r in ir.expression.integrand.keys()))
+            for sid in itg.subdomain_id:
+                i = -1 if sid in ("otherwise", "everywhere") else int(sid)
+                exp.setdefault((itg.integral_type, i), []).extend(names)
+        def arr(kind, pat):
+            m = re.search(kind + re.escape(fname) + r"\[(\d+)\] = \{(.*?)\};", src, re.S)
+            return [x.strip() for x in m.group(2).split(",")] if m and m.group(2).strip() else []
+        ks = [x.lstrip("&") for x in arr("form_integrals_", None)]
+        ids = [int(x) for x in arr("form_integral_ids_", None)]
+        offs = [int(x) for x in arr("form_integral_offsets_", None)]
+        got = {}
+        if len(offs) == 6 and len(ks) == len(ids):
+            for ti, t in enumerate(ITYPES):
+                for j in range(offs[ti], min(offs[ti + 1], len(ids))):
+                    got.setdefault((t, ids[j]), []).append(ks[j])
+        forms.append({"name": fname, "expected": {k: sorted(v) for k, v in exp.items()},
+                      "listed": {k: sorted(v) for k, v in got.items()}, "offsets": offs, "ids": ids})
+    return forms
 
 
 def main():
